@@ -35,12 +35,12 @@ func placeSeq(u *Universe, labels []string, numMode int) []*ref.Op {
 	return ops
 }
 
-func compareWithModel(c *hx.Ctx, u *Universe, ops []*ref.Op, order []int, tag string) {
+func compareWithModel(c *hx.Ctx, u *Universe, ops []*ref.Op, order []int, tag string, split ...int) {
 	c.Eval()
 	st, merr := ref.Resolve(ops, ref.ResolveOpts{})
-	rm, err, ta, exceeded := tracedResolve(u.Proto, u.Suffix, ops, order)
+	rm, err, ta, exceeded := tracedResolve(u.Proto, u.Suffix, ops, order, split...)
 	hs := histString(ops)
-	replay := map[string]interface{}{"suffix": u.Suffix, "history": replayOps(ops), "store_order": order, "tag": tag}
+	replay := map[string]interface{}{"suffix": u.Suffix, "history": replayOps(ops), "store_order": order, "tag": tag, "additional_operations_split": split}
 	if exceeded {
 		c.Violation("C03 step budget exceeded (non-termination / commitment revisited): "+hs, replay)
 		return
@@ -84,7 +84,7 @@ func compareWithModel(c *hx.Ctx, u *Universe, ops []*ref.Op, order []int, tag st
 }
 
 func checkC03(c *hx.Ctx) {
-	c.Rule("history = create followed by every sequence (with repetition) of the 39-label operation alphabet (valid, forked, failing-delta, out-of-window, bad-signature, replayed, cyclic) up to the tier's length, anchored at increasing times with adversarial transaction numbers, plus random long histories; a history is non-trivial when the reference model applies at least two operations; distinct = distinct (history,coordinates) strings")
+	c.Rule("history = create followed by every sequence (with repetition) of the 45-label operation alphabet (valid, forked, failing-delta incl. patches the JSON patch library panics on, out-of-window, bad-signature, wrong key kind, replayed, cyclic) up to the tier's length, anchored at increasing times with adversarial transaction numbers, plus random long histories (half of them also with a random part of the operations supplied through WithAdditionalOperations); a history is non-trivial when the reference model applies at least two operations; distinct = distinct (history,coordinates) strings")
 	c.Assume("the reference state machine in harness/ref/sidetree.go encodes the property statements C01-C06/C12", "Go crypto and btcec are trusted")
 	rng := c.Rng("universe")
 	p := hx.BaseProtocol()
@@ -177,15 +177,26 @@ func checkC03(c *hx.Ctx) {
 				ops = append(ops, Place(u.Ops[l], t, num, fmt.Sprintf("ref%d", k), p.GenesisTime))
 			}
 			compareWithModel(c, u, ops, r.Perm(len(ops)), "random")
+			if i%2 == 0 {
+				// the same history with part of the operations handed over through WithAdditionalOperations
+				// (0 = store, 1 = additional only, 2 = both)
+				split := make([]int, len(ops))
+				for x := range split {
+					split[x] = r.Intn(3)
+				}
+				compareWithModel(c, u, ops, nil, "random-additional-operations", split...)
+				c.Count("additional_operation_histories")
+			}
 		})
 	}
 	// floors
-	for _, l := range []string{"u01", "u02", "u12", "uF", "uW", "r01", "rB", "rI", "rF", "rW", "r12", "d0", "d1"} {
+	for _, l := range []string{"u01", "u02", "u12", "uF", "uW", "r01", "rB", "rI", "rF", "rW", "r12", "d0", "d1", "uJP", "rJP"} {
 		c.Floor("applied:"+l, 1)
 	}
-	for _, l := range []string{"u10", "u00", "uS", "uT", "uM", "uI", "uX", "uR", "r00", "rS", "dS", "dO", "dW", "dR", "rR", "uND", "rSB", "rTI", "uSF", "Cdup", "u01"} {
+	for _, l := range []string{"u10", "u00", "uS", "uT", "uM", "uI", "uX", "uR", "r00", "rS", "dS", "dO", "dW", "dR", "rR", "uND", "rSB", "rTI", "uSF", "Cdup", "u01", "rU", "dU", "uRk", "uTc"} {
 		c.Floor("ignored:"+l, 1)
 	}
+	c.Floor("additional_operation_histories", 100)
 	c.Floor("applied:dW", 1)
 	c.Floor("applied:Cdup", 1)
 }
